@@ -3,7 +3,7 @@ import GT.Model.ND
 import GT.Model.Obj
 import GT.Model.Vectorised
 import GT.Base.QSqrt
-open Lean GT.J GT
+open Lean GT.J GT GT.Act
 namespace GT.Driver.C04
 
 /-! JSON encoding of arrays: `{"shape":[2,3],"data":["1","1/2",…]}` (C order). -/
